@@ -112,6 +112,18 @@ theorem tie_fanout_conds : fanoutConds =
      "if err != nil", "if resp.StatusCode != http.StatusOK", "if err != nil", "for len(errorChan) > 0",
      "if !ok || httperr.Code != http.StatusNotFound"] := rfl
 
+/-- the expected hash handed to rewriteSignatures is the one taken from the request path, the
+error code starts at 404 and only ever becomes 502 (Model: `legacyFetchByPDH`, `legacyFanOut`) -/
+theorem tie_fanout_assigns : fanoutAssigns =
+    ["sharedContext, cancelFunc := context.WithCancel(req.Context())", "pdh := m[1]",
+     "success := make(chan *http.Response)",
+     "errorChan := make(chan error, len(h.handler.Cluster.RemoteClusters))", "wasSuccess := false",
+     "newResponse, err := rewriteSignatures(remote, pdh, resp, nil)", "wasSuccess = true",
+     "errorCode := http.StatusNotFound", "errorCode = http.StatusBadGateway"] := rfl
+
+theorem tie_fanout_returns : fanoutReturns =
+    ["false", "false", "true", "", "", "", "", "", "true", "true", "true"] := rfl
+
 theorem tie_filterLocal : filterLocalText =
     "{ if requestError != nil { return resp, requestError } if resp.StatusCode == http.StatusNotFound { return nil, nil } return resp, nil }" := rfl
 
